@@ -167,7 +167,8 @@ class ArrayConstraintBuilder(ConstraintOverrideVisitor):
     def visit_field_scalar_array(self, f:FieldArrayModel):
         if self.phase == 0:
             # TODO: this logic is for rand-sized array fields
-            if f.is_rand_sz:
+            # (a list that is not random in this call keeps its size)
+            if f.is_rand_sz and f.is_used_rand:
                 size_bound = self.bound_m[f.size]
                 range_l = size_bound.domain.range_l
                 max_size = int(range_l[-1][1])
@@ -199,6 +200,11 @@ class ArrayConstraintBuilder(ConstraintOverrideVisitor):
                     # Extend the size appropriately
                     for i in range(max_size-len(f.field_l)):
                         f.add_field()
+            if not f.is_scalar:
+                # The elements of an object list may hold random-size 
+                # lists of their own
+                for sf in f.field_l:
+                    sf.accept(self)
         elif self.phase == 1:
             if not f.is_scalar:
                 # Need to recurse into sub-fields for non-scalar arrays
